@@ -127,6 +127,8 @@ func judge(entry string, r Res) (string, string) {
 	return "", ""
 }
 
+var c04Trace = os.Getenv("SIM_C04_TRACE") != ""
+
 func c04Main(args []string) {
 	fs := flag.NewFlagSet("c04", flag.ExitOnError)
 	tier := fs.String("tier", "quick", "")
@@ -248,7 +250,22 @@ func c04Main(args []string) {
 			sum.Injected[kind]++
 			bad, reason, und := unreadable(text)
 			if und {
+				// json-gold itself panics on this value: it can neither be said to accept nor to reject it in an
+				// orderly way. An error or a panic of the entry point are both tolerated here, but a VERDICT is
+				// not: JSON-LD processing did not get through the document.
 				sum.Undecided++
+				for _, e := range entries {
+					sum.Calls++
+					res := callEntry(e, handle, ptxt, text)
+					if !res.Err && res.Panic == "" {
+						sum.NViol++
+						sigCount["report_for_unprocessable:"+kind]++
+						if sigCount["report_for_unprocessable:"+kind] <= 2 {
+							sum.Violations = append(sum.Violations, c04Violation{Profile: pr.ID, Data: dpath, Fault: spec, Entry: e, Class: "report_for_unprocessable",
+								Sig: "report_for_unprocessable:" + kind, Reason: "json-gold panics on this document", Detail: "returned a report and no error", DocLen: len(dtxt)})
+						}
+					}
+				}
 				return
 			}
 			if !bad {
@@ -274,6 +291,11 @@ func c04Main(args []string) {
 			}
 			for _, e := range entries {
 				sum.Calls++
+				if c04Trace {
+					// only on the re-run of a shard whose process died: say what is about to be called
+					tb, _ := json.Marshal(map[string]any{"profile": pr.ID, "data": dpath, "fault": spec, "entry": e, "kind": kind, "doc_len": len(dtxt), "reason": clip(reason)})
+					fmt.Fprintf(os.Stderr, "C04TRACE %s\n", tb)
+				}
 				res := callEntry(e, handle, ptxt, text)
 				if cls, det := judge(e, res); cls != "" {
 					sum.NViol++
